@@ -21,7 +21,7 @@ CLAIMS = {
         "stage the inverse reads what the forward wrote for the same role: Stacker stack/unstack and rename pairs on sample_name/feature_name with "
         "dims_mapping, Dataset variable-level name, dispatch on the stored type name, dimension order restored on every unstack path; Concatenator "
         "splits with the offsets it concatenated with and re-attaches the recorded coordinates; MultiIndexConverter records/restores exactly the "
-        "converted dimensions with the right reference per inverse; DimensionRenamer inverts its own mapping. List items reach xr.concat with their own sample labels and are joined by label (no override join, raw-array concatenation or sample relabelling); the two MultiIndex coordinate stores are distinct objects; the MultiIndex inverse re-attaches the labels and rebuilds the index. The level names recorded for a serialised MultiIndex coordinate are the index's own names. Stacker.transform stacks with the dimension lists recorded at fit; mappings keyed by the stringified list position are walked in insertion or numeric order. Stacker.transform compares the labels along every feature dimension in order with the recorded ones and brings a Dataset into the variable / dimension layout recorded at fit; the unstack variants rename the stacked sample name only where it is a dimension of the data.",
+        "converted dimensions with the right reference per inverse; DimensionRenamer inverts its own mapping. List items reach xr.concat with their own sample labels and are joined by label (no override join, raw-array concatenation or sample relabelling); the two MultiIndex coordinate stores are distinct objects; the MultiIndex inverse re-attaches the labels and rebuilds the index. The level names recorded for a serialised MultiIndex coordinate are the index's own names. Stacker.transform stacks with the dimension lists recorded at fit; mappings keyed by the stringified list position are walked in insertion or numeric order. Stacker.transform compares the labels along every feature dimension in order with the recorded ones and brings a Dataset into the variable / dimension layout recorded at fit; the unstack variants rename the stacked sample name only where it is a dimension of the data. The Dataset inverse un-stacks the feature dimension only (no bare unstack / squeeze outside the legacy fallback); reconstructions carry the fitted coordinate order; internal dimension names are numbered from the sample dimensions given to fit.",
         "note": "Necessary structural clauses only. Not decided: value-at-label equality, xarray's stack/unstack behaviour for exotic indexes, sortedness "
         "after unstack. Label paths for unseen data are decided under C05, NaN re-insertion under C06.",
         "technique": "call-sequence extraction against a table literal, writer/reader agreement by provenance, match-dispatch comparison",
@@ -31,7 +31,7 @@ CLAIMS = {
         "by the inverted operator under the same flag, once, with the mean removed first and restored last; every def-use path of data through "
         "the stage objects of the single- and cross-set families respects preprocessor -> pca -> whitener forward and the reverse back, never "
         "crosses fields, and public results leave through the preprocessor's inverse; PCA/whitener score maps are identities; every "
-        "'normalized' switch divides in score-producing directions and multiplies in the others by the per-mode norms of the same field. Whitener un-whitening uses Tinv with the conjugation of T (PCA: V and V^H); every 'normalized' switch is either applied to a per-mode norm or handed on. No accessor rescales stored arrays in place; in functions serving both fields the switch acts on both; arrays computed from a coordinate carry their own name (so that the serialiser does not store them as that coordinate). The whitening kernel's outputs are labelled T: (feature, mode), Tinv: (mode, feature). No real-part / modulus projection precedes un-whitening and PCA expansion in the cross-set family; the Dataset and DataArray unstack variants agree on the guarded rename.",
+        "'normalized' switch divides in score-producing directions and multiplies in the others by the per-mode norms of the same field. Whitener un-whitening uses Tinv with the conjugation of T (PCA: V and V^H); every 'normalized' switch is either applied to a per-mode norm or handed on. No accessor rescales stored arrays in place; in functions serving both fields the switch acts on both; arrays computed from a coordinate carry their own name (so that the serialiser does not store them as that coordinate). The whitening kernel's outputs are labelled T: (feature, mode), Tinv: (mode, feature). No real-part / modulus projection precedes un-whitening and PCA expansion in the cross-set family; the Dataset and DataArray unstack variants agree on the guarded rename. No absolute machine-epsilon cut-off on data-derived values; the Hilbert augmentation removes the mean of the imaginary part only; reconstructions can be handed back to transform (fitted coordinate order).",
         "note": "Necessary structural clauses only. Not decided: the numerical round-trip identity, SparsePCA/POP approximations.",
         "technique": "affine-map extraction by provenance + guard analysis, stage-chain order typing over def-use paths, field-index typing",
     },
@@ -50,7 +50,7 @@ CLAIMS = {
         "inverse_transform_scores); from transform/predict of every concrete model (30+ entry points, dispatch on the concrete class) the resolved call "
         "graph reaches none of them; the *_unseen variants read no such state; every Preprocessor.inverse_transform_scores_unseen call is preceded "
         "by transform of the same object (dominators, correlated is-not-None blocks, earlier loops); on all functions reachable from transform no "
-        "statistic of the new data along samples is combined arithmetically with that data. No sample COUNT of the new data (.size, .sizes[sample], .shape[0], len) is fed back into the scores; the unseen label path aligns nothing by label.",
+        "statistic of the new data along samples is combined arithmetically with that data. No sample COUNT of the new data (.size, .sizes[sample], .shape[0], len) is fed back into the scores; the unseen label path aligns nothing by label. Coordinates recorded by a stage's transform are re-attached to what is left of the samples.",
         "note": "Necessary structural clauses only. Not decided: absence of spurious NaNs numerically; concatenation equality as values.",
         "technique": "call-graph reachability to derived typestate sinks, must-precede over CFG dominators, def-use provenance for per-sample purity",
     },
@@ -59,7 +59,7 @@ CLAIMS = {
         "isolated-NaN predicate (count in {0, number of valid features}), the returned array is where(features & samples, drop=True); the coordinate "
         "identity check raises and dominates the mask computation; fit goes through transform; the three inverse maps reindex the right dimension to "
         "the right remembered coordinates and scores/components/inverse_transform of every concrete model reach them; the cross-set fit is checked for "
-        "a joint treatment of both fields' valid samples (known finding: absent). Per-item sample deletions of list input are reconciled by label at concatenation. The rotator's sample count is that of the decomposed matrix. Fitted statistics combined with the data before the sanitizer stage are finite at entirely missing features (filled after the reduction).",
+        "a joint treatment of both fields' valid samples (known finding: absent). Per-item sample deletions of list input are reconciled by label at concatenation. The rotator's sample count is that of the decomposed matrix. Fitted statistics combined with the data before the sanitizer stage are finite at entirely missing features (filled after the reduction). List items are refused unless they hold the same samples.",
         "note": "Necessary structural clauses only. Not decided: equality with the model fitted on reduced data; NaN-freeness of values. Known "
         "finding CROSS.joint recorded in known_findings.json.",
         "technique": "guard/raise role analysis by provenance of the guard condition, dominators, call-graph reachability",
@@ -78,7 +78,7 @@ CLAIMS = {
         "same meaning (element [i] for field i of cross-set models) and, inside the Preprocessor, the Scaler/Sanitizer keyword; in Scaler.fit/transform/"
         "inverse each flag guards exactly its own fitted factor and every factor acts once; user weights reach Scaler.weights_ unchanged through "
         "entry point -> Preprocessor -> iter_kwargs['weights'] -> per-item fit(**{k: v[i]}) for the right field and no other stage; mean_/std_ are "
-        "reductions over the sample dimensions; latitude weights are sqrt(cos(deg2rad(lat)).clip(0,1)) of a feature dimension. The user's weights reach the scaler with their own labels (no re-labelling, re-indexing or raw-value access on the way). Between sqrt(cos(lat)) and the stored factor the latitude weights pass label operations only. Bound / fill values of the fitted mean / std are constants.",
+        "reductions over the sample dimensions; latitude weights are sqrt(cos(deg2rad(lat)).clip(0,1)) of a feature dimension. The user's weights reach the scaler with their own labels (no re-labelling, re-indexing or raw-value access on the way). Between sqrt(cos(lat)) and the stored factor the latitude weights pass label operations only. Bound / fill values of the fitted mean / std are constants. No absolute machine-epsilon cut-off on data-derived values.",
         "note": "Necessary structural clauses only. Not decided: the invariances themselves, the 1.2e-7 clipping floor, latitude-name detection beyond the lookup.",
         "technique": "interprocedural constructor-parameter flow, guard-to-operation pairing, def-use provenance through dict/loop forwarding",
     },
@@ -131,7 +131,7 @@ CLAIMS = {
         "literal, update, item assignment, pop) is closed under cls(**params); sklearn-style transformers store every constructor "
         "parameter under its name; every attribute assigned outside __init__ and read on a post-fit path is serialised; every marker "
         "literal a deserialiser reads is written by a serialiser; the netCDF attribute codec has no unguarded constant subscript on a "
-        "possibly empty string and no unhandled literal_eval (positive fixture fires on every run). Deserialised container attributes are distinct objects; the netCDF attribute codec is applied to node-level and variable-level attributes in both directions, written back under the key read. Arrays computed from a coordinate are named; recorded MultiIndex levels are the index's own; deserialisation entry points run no finalising hook. List transformers are rebuilt in list order (position-keyed mapping walked in insertion or numeric order). Serialised attributes hold plain values (no raw Dataset.dims / sizes mapping proxies).",
+        "possibly empty string and no unhandled literal_eval (positive fixture fires on every run). Deserialised container attributes are distinct objects; the netCDF attribute codec is applied to node-level and variable-level attributes in both directions, written back under the key read. Arrays computed from a coordinate are named; recorded MultiIndex levels are the index's own; deserialisation entry points run no finalising hook. List transformers are rebuilt in list order (position-keyed mapping walked in insertion or numeric order). Serialised attributes hold plain values (no raw Dataset.dims / sizes mapping proxies). User arrays kept as serialised state are renamed at intake.",
         "note": "Necessary structural clauses only. Not decided: value identity of results after a round trip; the real netCDF/zarr "
         "engines. Known finding: GWPCA constructor closure (see known_findings.json).",
         "technique": "key-set abstract interpretation of constructor chains, writer/reader literal agreement, guard (try/except, emptiness) analysis",
@@ -142,7 +142,7 @@ CLAIMS = {
         "compute of every concrete model and persistent transformer shows no attribute that fit rewrites being read before it is rebuilt; "
         "transform-written attributes are not read by fitted-data accessors; arrays read from another model's container or the caller's inputs never "
         "reach DataContainer.add or an in-place assignment without an intervening fresh object; borrowed stage objects are never re-fitted; mutable "
-        "defaults are never mutated. No two attributes of an object are bound to one mutable container (any method, directly or through a local); query methods do not modify stored results in place. No memo (cached_property / lru_cache) of a value derived from fitted state survives a refit. No configuration is read from self.attrs, which every fit re-encodes in place.",
+        "defaults are never mutated. No two attributes of an object are bound to one mutable container (any method, directly or through a local); query methods do not modify stored results in place. No memo (cached_property / lru_cache) of a value derived from fitted state survives a refit. No configuration is read from self.attrs, which every fit re-encodes in place. Stage objects taken over from a model are copies; serialisation functions do not write on live objects.",
         "note": "Necessary structural clauses only. Not decided: bit-identical equality with a fresh model. Trusted: which operations return fresh "
         "objects (any xarray/numpy method call or arithmetic), DataContainer.add/set_attrs mutate what they are given.",
         "technique": "typestate/history analysis: must-def / exposed-read dataflow across calls, ownership (borrowed vs fresh) provenance, dominators",
@@ -174,7 +174,7 @@ CLAIMS = {
         "its uses); Scaler.transform's arithmetic with fitted arrays is dominated by a raising dimension check; 30+ role guards exist, raise under the "
         "right condition and precede the use they protect: n_modes sanity (both SVD wrappers), init_rank_reduction range, rank, negative alpha, unknown "
         "solver, item counts, transform dimensions / feature coordinates, empty dims, MultiIndex, name clash, 2-D dims, dim type, 'X or Y required', "
-        "cross-set sample count, concatenator and multi-set view validation. Every fitted array Scaler.transform combines with the data is covered by the dimension check; init_rank_reduction is validated exactly when n_modes is a variance fraction; the bounds of the n_modes validation (int < 1, float outside (0, 1], other strings) and the Stacker's container-type check are in place. In every _inverse_transform_algorithm the stored array contracted with a score argument is selected by that argument's own mode labels. Feature labels of transform data are compared in order with the recorded ones.",
+        "cross-set sample count, concatenator and multi-set view validation. Every fitted array Scaler.transform combines with the data is covered by the dimension check; init_rank_reduction is validated exactly when n_modes is a variance fraction; the bounds of the n_modes validation (int < 1, float outside (0, 1], other strings) and the Stacker's container-type check are in place. In every _inverse_transform_algorithm the stored array contracted with a score argument is selected by that argument's own mode labels. Feature labels of transform data are compared in order with the recorded ones. A MultiIndex along a feature dimension is compared (in order) with the fitted one before it is replaced by positions; feature labels are compared as index labels; n_modes is validated at construction or at fit by every single-set model; multi-set CCA transform checks the number of views.",
         "note": "Necessary structural clauses only. Not decided: which exception type; that no numbers come out for every malformed call; rejections that "
         "xarray itself performs (unknown dimension names / mode labels).",
         "technique": "must-precede (dominator) analysis of guards, raise-condition role matching, call-site binding",
@@ -209,4 +209,4 @@ for _p in ["C01", "C02", "C03", "C04", "C05", "C06", "C08", "C09", "C10", "C11",
     if _p not in CLAIMS:
         NOT_APPLICABLE[_p] = PENDING
 
-FIX_COMMITS: list[str] = ['66ece4b', 'ed076f6', '9a78ace', 'cf5abcd', '44e0064', '50d9a93', '83c3286', 'a1f053b', 'f5a50f1', 'f91da99', '5bc6ab8', '535dacf', '4fafdb0', 'f5c4825', 'b539edf', '6aa614c', '5bf1e4c', '7d40fdd', '06b897f', '456072f', '3fe121c', '76a2a6e', '3fca62d', '40b40f5', '26afd29', '1cd4dd0', 'a73d8de', 'ecd49ca', '80098d5', 'ed1bc9f', '8ac783d', '6ca6be5', '0e40cc3', '2b55b4e', 'caffa9a', 'a8e7280']
+FIX_COMMITS: list[str] = ['66ece4b', 'ed076f6', '9a78ace', 'cf5abcd', '44e0064', '50d9a93', '83c3286', 'a1f053b', 'f5a50f1', 'f91da99', '5bc6ab8', '535dacf', '4fafdb0', 'f5c4825', 'b539edf', '6aa614c', '5bf1e4c', '7d40fdd', '06b897f', '456072f', '3fe121c', '76a2a6e', '3fca62d', '40b40f5', '26afd29', '1cd4dd0', 'a73d8de', 'ecd49ca', '80098d5', 'ed1bc9f', '8ac783d', '6ca6be5', '0e40cc3', '2b55b4e', 'caffa9a', 'a8e7280', 'cadc9b9']
